@@ -85,6 +85,14 @@ CHECKS = [
              'NumPy JW products; measure_1site/2site (all bond strings, explicit bonds, dict operators)/nsite, rdm (any site order, against '
              'fkron traces and partial traces) and sample probabilities equal dense expectation values on random states of every admissible charge.',
      'note': 'trusted: vlib/jw.py (standard JW convention) and the NumPy MPS contraction; one open known finding on the LaTeX parser scope'},
+    {'id': 'C08',
+     'technique': 'Hypothesis rule-based state machine over MPS/MPO gauge moves against a dense model + generated binding truncations against an independent sector-wise dense truncation',
+     'text': 'Histories of canonize_/orthogonalize_site_/absorb_central_/diagonalize_central_/truncate_ (non-binding) with normalize True/False, '
+             'reverse_sites, copies and observers over MPS, MPO and rank-deficient/degenerate direct sums: the dense state (incl. central '
+             'block and factor) is unchanged (same direction, no phase freedom, unit norm after normalising sweeps), sweeps leave isometries, '
+             'norm/Schmidt values/entropies equal numpy svd. Binding truncate_ on states in the opposite canonical form: returned weight equals '
+             'the true relative error, factor equals kept norm, state equals a sequential largest-weight dense truncation (no-tie cases).',
+     'note': 'trusted: NumPy contraction of site tensors; the C13 reference selection for the dense truncation; scalar limits only in the truncation part'},
     {'id': 'C13',
      'technique': 'Hypothesis-generated spectra and limit combinations checked with a validity predicate derived from the documented two-stage rule; error identity on generated factorisations',
      'text': 'Diagonal spectra with ties, zeros, one-element sectors over 1-5 sectors and every combination of D_total, D_block (scalar/dict), '
